@@ -111,25 +111,74 @@ KEYWORDS = [  # (instance suffix, literal, call-site pos expression)
 # only the bracket-free keyword is safe on the tree as it stands (see the finding in the property file)
 KW_QUICK = {"end"}
 kw_alt = "|".join(re.escape(k[1]) for k in KEYWORDS)
+
+
+def kw_structure(lit):
+    """bracket pairs and, for every index i of the literal (and i == len): whether it lies strictly inside a [..] section
+    (behind the '[' up to and including the ']'), the number of mandatory / of all non-bracket characters in front of it"""
+    pairs, inside, mand, alln = [], [], [], []
+    m = a = 0
+    lb = None
+    for i, c in enumerate(lit + "\0"):
+        inside.append(lb is not None)
+        mand.append(m)
+        alln.append(a)
+        if c == "[":
+            lb = i
+        elif c == "]":
+            pairs.append((lb, i))
+            lb = None
+        elif c != "\0":
+            a += 1
+            if lb is None:
+                m += 1
+    return pairs, inside, mand, alln
+
+
+def kw_loops(lit):
+    """Loop contracts of LPFhasKeyword for one constant keyword.  i indexes the keyword, k the text at pos.
+    CBMC numbers the loops: 0 = `while(tolower(pos[k]) == keyword[i] ...)`, 1 = `while(keyword[i] != ']')`, 2 = the outer for."""
+    L = len(lit)
+    pairs, inside, mand, alln = kw_structure(lit)
+    first = "(v_c0 == '%s' || v_c0 == '%s')" % (lit[0], lit[0].upper())
+    common = ["0 <= k && k <= g_len - g_off", "*gpp_pos == gp_line + g_off", "(i >= 1) ==> %s" % first]
+    # outer loop head: i is outside the optional sections; k lies between the mandatory and the total number of characters in front of i
+    heads = [h for h in range(L + 1) if not inside[h]]
+    outer = " || ".join("(i == %d && %d <= k && k <= %d)" % (h, mand[h], alln[h]) for h in heads)
+    # inside section j (lb < i <= rb): k and i advance together in loop 0; only i advances in loop 1
+    sec0 = " || ".join("(%d < i && i <= %d && %d <= k - (i - %d) && k - (i - %d) <= %d)" % (lb, rb, mand[lb], lb + 1, lb + 1, alln[lb]) for lb, rb in pairs)
+    sec1 = " || ".join("(%d < i && i <= %d && %d <= k && k - (i - %d) <= %d)" % (lb, rb, mand[lb], lb + 1, alln[lb]) for lb, rb in pairs)
+    return [
+        {"function": "LPFhasKeyword", "loop": 0, "locals": ["i", "k"], "invariants": common + [sec0], "assigns": ["i", "k"], "decreases": "%d - i" % L},
+        {"function": "LPFhasKeyword", "loop": 1, "locals": ["i", "k"], "invariants": common + [sec1], "assigns": ["i"], "decreases": "%d - i" % L},
+        {"function": "LPFhasKeyword", "loop": 2, "locals": ["i", "k"], "invariants": common + [outer], "assigns": ["i", "k"], "decreases": "%d - i" % L},
+    ]
+
+
 for suffix, lit, posx in KEYWORDS:
     kmin = len(re.sub(r"\[[^\]]*\]", "", lit))
     kmax = len(lit.replace("[", "").replace("]", ""))
-    instances.append({
+    inst = {
         "name": "hasKeyword_" + suffix,
         "function": "LPFhasKeyword(char*& pos, const char* keyword) with keyword = \"%s\"  [spxlpbase_real.hpp]" % lit,
         "defines": {"INST_hasKeyword": "", "KW_MIN": str(kmin), "KW_MAX": str(kmax), "KW_FIRST": "'%s'" % lit[0]},
         "harness": "h_hasKeyword", "enforce": "w_hasKeyword",
         "slices": COMMON + [S_hasKeyword],
         "extracts": [{"as": "keyword.inc", "file": HPP, "regex": r"LPFhasKeyword\(%s,\s*(\"%s\")\)" % (re.escape(posx), re.escape(lit)), "group": 1}],
-        # every loop of LPFhasKeyword advances i, which is bounded by the length of the (constant) keyword: complete unwinding
-        "unwind": len(lit) + 3,
-        "unwind_loops": [{"function": "LPFhasKeyword", "loop": 0}, {"function": "LPFhasKeyword", "loop": 1}, {"function": "LPFhasKeyword", "loop": 2}],
         "min_obligations": 100, "tier": "quick" if suffix in KW_QUICK else "thorough",
         "mutants": [
             {"name": "no_word_end", "slice": "LPFhasKeyword.inc", "find": "if(keyword[i] == '\\0' && (", "replace": "if(keyword[i] == '\\0' || ("},
             {"name": "advance", "slice": "LPFhasKeyword.inc", "find": "pos += k;", "replace": "pos += k + 1;"},
         ],
-    })
+    }
+    if "[" in lit:
+        # loop contracts generated from the structure of the constant keyword (positions of its [..] sections)
+        inst["loops"] = kw_loops(lit)
+    else:
+        # no optional section: the two inner loops are never entered and the outer one runs at most len(keyword) times: complete unwinding
+        inst["unwind"] = len(lit) + 3
+        inst["unwind_loops"] = [{"function": "LPFhasKeyword", "loop": 0}, {"function": "LPFhasKeyword", "loop": 1}, {"function": "LPFhasKeyword", "loop": 2}]
+    instances.append(inst)
 
 instances.append({
     "name": "readInfinity", "function": "LPFreadInfinity<R>(char*& pos)  [spxlpbase_real.hpp]", "defines": {"INST_readInfinity": ""},
